@@ -456,16 +456,37 @@ theorem solve_presolve_transparent (S : Solver α) (st : Settings α) (r : Solve
   unfold Solver.solve at hr ⊢
   obtain ⟨L, hL, hr⟩ := bind_ok_inv' hr
   obtain ⟨pr, hfin, hr⟩ := bind_ok_inv' hr
+  obtain ⟨dN, hdN, hr⟩ := bind_ok_inv' hr
   cases hr
   have hpm' : presolveMap L.S.data = some pm := by
     rw [presolveMap_congr (runSolve_presolver hL)]; exact hpm
   obtain ⟨pr', hfin', hst, hrel⟩ := finish_some_none (sol' := sol') hfin hpm' hx hs hz
-  refine ⟨{ S := { st := pr'.1, solution := pr'.2 }, traj := L.traj }, ?_, ⟨rfl, hst, hrel⟩⟩
-  dsimp only
-  rw [runSolve_setPre, hL]
-  show (finish st (L.setPre none) sol' >>= fun r => _) = _
-  rw [hfin']
-  rfl
+  -- the norm caches are filled from `q`, `b`, the equilibration and the caches: not the presolver
+  have hfill : fillNorms pr'.1.data = .ok (dN.setPre none) := by
+    rw [hst]
+    show fillNorms (pr.1.data.setPre none) = _
+    unfold fillNorms at hdN ⊢
+    obtain ⟨nq, hq, hdN⟩ := bind_ok_inv' hdN
+    obtain ⟨nb, hb, hdN⟩ := bind_ok_inv' hdN
+    cases hdN
+    show (Info.getNormq pr.1.data.normq pr.1.data.q pr.1.data.equilibration.dinv pr.1.data.equilibration.c
+      >>= fun a => Info.getNormb pr.1.data.normb pr.1.data.b pr.1.data.equilibration.einv >>= fun b => _) = _
+    rw [hq]
+    show (Info.getNormb pr.1.data.normb pr.1.data.b pr.1.data.equilibration.einv >>= fun b => _) = _
+    rw [hb]
+    rfl
+  refine ⟨{ S := { st := { pr'.1 with data := dN.setPre none }, solution := pr'.2 }, traj := L.traj }, ?_,
+    ⟨rfl, ?_, hrel⟩⟩
+  · dsimp only
+    rw [runSolve_setPre, hL]
+    show (finish st (L.setPre none) sol' >>= fun r => _) = _
+    rw [hfin']
+    show (fillNorms pr'.1.data >>= fun data => _) = _
+    rw [hfill]
+    rfl
+  · show ({ pr'.1 with data := dN.setPre none } : SolverSt α) = _
+    rw [hst]
+    rfl
 
 /-! ### 2./3. construction -/
 
